@@ -32,6 +32,10 @@ def cases(tier, rng, schema, feats):
         payloads += [rng.bytes(1 + rng.below(64)) for _ in range(n)]
         for k, p in enumerate(payloads):
             out.append(f"C11.dec.{b}.{k}\tdec2\t{bytes([b]).hex()}{p.hex()}")
+    # "whatever bytes follow": long trailing payloads, up to and beyond the maximum message size
+    for b in (0x04, 0x07, 0x08, 0x0B, 0x42, 0x7F, 0x09, 0x0D, 0x40, 0x00, 0x03, 0x0E, 0xFF):
+        for L in (7607, 7608, 7609, 7610, 12000):
+            out.append(f"C11.long.{b}.{L}\tdec2\t{bytes([b]).hex()}{(bytes([L & 0xFF]) * L).hex()}")
     return out
 
 
